@@ -44,14 +44,14 @@ def plan(tier, seed):
     q = tier == 'quick'
     specs = []
     for fam in families.FAMILY_NAMES:
-        specs.append(dict(label=fam, family=fam, containers=16 if q else 120,
+        specs.append(dict(label=fam, family=fam, containers=16 if q else 800,
                           seed=seed, tier=tier, variant='mon',
-                          timeout=900 if q else 3000))
+                          timeout=900 if q else 7200))
     if not q:
         for fam in ['OO', 'II', 'fs', 'LF', 'QO']:
-            specs.append(dict(label=fam + '-asan', family=fam, containers=30,
+            specs.append(dict(label=fam + '-asan', family=fam, containers=120,
                               seed=seed + 3, tier=tier, variant='asan',
-                              timeout=3000))
+                              timeout=7200))
     return specs
 
 
